@@ -36,6 +36,8 @@ Arguments Err {A} e.
 
 (* usize::MAX, the default memory limit *)
 Definition usize_max : N := 18446744073709551615.
+(* isize::MAX: the largest size a Layout can describe; a bucket of more bytes cannot be allocated *)
+Definition isize_max : N := 9223372036854775807.
 
 (* ---- raw byte buffers: a block's memory is a list of bytes, addressed by offset ---- *)
 
